@@ -14,12 +14,13 @@ import (
 // C13: cursor scans on a real KVNode/RockDB (advscan / advrevscan through the node's merge handler with its
 // next-cursor and table-boundary rules; hscan / sscan / zscan and their reverse forms through the read handlers)
 // vs the Lean paging model; the client loop "feed the cursor back until it is empty" runs on both sides.
-//   open <eng>
-//   pop <type> <hexrawkey> [<hexsub>…]        kv | hash | set | zset | list   (rawkey = table:key)
-//   adv <TYPE> <hexcursor table:cur> <count> <rev>            → keys=[…] next=<hex>        one page
-//   full <TYPE> <hextable> <hexstart> <count> <rev>           → keys=[…] rounds=<n>        client loop
-//   cscan <h|s|z> <hexrawkey> <hexcursor> <count> <rev>       → items=[…] next=<hex>       one page
-//   cfull <h|s|z> <hexrawkey> <hexstart> <count> <rev>        → items=[…] rounds=<n>       client loop
+//
+//	open <eng>
+//	pop <type> <hexrawkey> [<hexsub>…]        kv | hash | set | zset | list   (rawkey = table:key)
+//	adv <TYPE> <hexcursor table:cur> <count> <rev>            → keys=[…] next=<hex>        one page
+//	full <TYPE> <hextable> <hexstart> <count> <rev>           → keys=[…] rounds=<n>        client loop
+//	cscan <h|s|z> <hexrawkey> <hexcursor> <count> <rev>       → items=[…] next=<hex>       one page
+//	cfull <h|s|z> <hexrawkey> <hexstart> <count> <rev>        → items=[…] rounds=<n>       client loop
 func init() { register(&Proto{Name: "scan", Gen: genScan, New: newScan}) }
 
 var scanTypes = []string{"KV", "HASH", "LIST", "SET", "ZSET"}
@@ -134,8 +135,8 @@ func hexList(xs [][]byte) string {
 
 func newScan(c *Ctx) func(string) string {
 	var n *dnode
-	pop := map[string]map[string]bool{}        // TYPE → raw keys
-	coll := map[string]map[string]bool{}        // "h rawkey" → members
+	pop := map[string]map[string]bool{}  // TYPE → raw keys
+	coll := map[string]map[string]bool{} // "h rawkey" → members
 	ts := int64(1600000000000000000)
 	closeN := func() {
 		if n != nil {
